@@ -177,7 +177,7 @@ class Ctx:
 
     # ---- builds
     def cargo_env(self):
-        return {"CARGO_NET_OFFLINE": "true", "RUSTFLAGS": "--cfg %s" % GUARD,
+        return {"CARGO_NET_OFFLINE": "true", "RUSTFLAGS": "--cfg %s --check-cfg cfg(%s)" % (GUARD, GUARD),
                 "CARGO_TARGET_DIR": os.path.join(CACHE, "target"), "CARGO_TERM_COLOR": "never"}
 
     def harness(self, pkg, release=False, extra_rustflags=""):
